@@ -96,6 +96,16 @@ class Executor:
         m['_st'] = st
         self.obligations.append(Obligation(name, list(st.pc) + list(extra_hyps), goal, m))
 
+    def spec(self, fn, C, what):
+        """evaluate a contract lambda; a lambda that no longer fits the code (renamed local, for/while
+        changed, ...) makes the function UNBOUND, never a crash or a violation"""
+        try:
+            return fn(C)
+        except Unbound:
+            raise
+        except Exception as e:
+            raise Unbound('%s of %s does not fit the code found: %s: %s' % (what, self.c.qualname, type(e).__name__, e))
+
     def assumed(self, text):
         self.assumptions.add(text)
 
